@@ -545,8 +545,8 @@ V('exw-late-expand', ['C19', 'C03'], P, "            self.extracted.append(self.
 V('exw-extra-cond', ['C18'], P, "        if mac.extract:\n            toks = ([defs.LanguageToken(start,", "        if mac.extract and not delimiters[-1:] == [None]:\n            toks = ([defs.LanguageToken(start,", 'EXW')
 V('um1-swallow-option', ['C03', 'C19'], P, "            if not (math or tok.txt in self.unknowns):\n                self.unknowns.append(tok.txt)\n            return [defs.ActionToken(tok.pos)]",
   "            if not (math or tok.txt in self.unknowns):\n                self.unknowns.append(tok.txt)\n            if buf.cur() and buf.cur().txt == '[':\n                self.arg_buffer(buf, tok.pos, end=']')\n            return [defs.ActionToken(tok.pos)]", 'UM1')
-V('um1-sticky-unknown', ['C09', 'C19'], P, "        buf.skip_space()    # for macros without arguments, even if known\n        if tok.txt not in self.the_macros:",
-  "        buf.skip_space()    # for macros without arguments, even if known\n        if tok.txt in self.unknowns:\n            return [defs.ActionToken(tok.pos)]\n        if tok.txt not in self.the_macros:", 'UM1')
+V('um1-sticky-unknown', ['C09', 'C19'], P, "            buf.next()\n        if tok.txt not in self.the_macros:",
+  "            buf.next()\n        if tok.txt in self.unknowns:\n            return [defs.ActionToken(tok.pos)]\n        if tok.txt not in self.the_macros:", 'UM1')
 V('sc8-many-digits', ['C09'], S, "        arg = int(latex[self.pos])\n        self.pos += 1\n",
   "        first = self.pos\n        while self.pos < self.max_pos and latex[self.pos].isdecimal():\n            self.pos += 1\n        arg = int(latex[first:self.pos])\n", 'SC8')
 V('sb2b-no-default-at-end', ['C09'], P, "                if tok and tok.txt == '[':\n                    delim = True\n                    arg_extr = arg = self.arg_buffer(buf, pos, end=']').all()\n                else:\n                    if n < len(mac.defaults):",
@@ -590,3 +590,7 @@ V('sig1-neutral-more', ['C03'], PA, "        Environ(self, 'tabular', args='OA',
 V('df2-keep-flows', ['C03', 'C18'], P, "            del self.extracted[n_extracted:]\n", "", 'DF2')
 V('df2-rebind', ['C03', 'C18'], P, "            del self.extracted[n_extracted:]\n", "            self.extracted = self.extracted[:n_extracted]\n", ['EXW'])
 V('sbl1-def-unguarded', ['C03', 'C09'], P, "        if name in self.parms.newcommand_ignore:\n            # as for \\newcommand\n            return [defs.ActionToken(start)]\n", "", 'SBL1')
+V('ml2-same-lang-skip', ['C12', 'C10'], U, "        if t.lang == lang_stack[-1]:\n            if not (t.back or t.hard):\n                # same language again: no new section, but the token that\n                # closes this switch will pop the stack\n                lang_stack.append(t.lang)\n            continue\n",
+  "        if t.lang == lang_stack[-1]:\n            continue\n", 'ML2')
+V('mt6-no-tag', ['C11'], 'yalafi/packages/amsmath.py', "        Macro(parms, '\\\\tag', args='*A', repl=''),\n", "", 'MT6')
+V('lt2-skip-space', ['C12'], P, "        while (buf.cur() and buf.is_space(buf.cur())\n                    and type(buf.cur()) is not defs.LanguageToken):\n            buf.next()\n", "        buf.skip_space()\n", 'LT2')
